@@ -4,9 +4,10 @@ Three things run on the same histories (interleavings of next() on up to 3 live 
 append / extend / insert_before / insert_after / remove / move / sort):
 
 * the real code: `_linked_list.DoublyLinkedSet` directly, `ir.Graph`, `ir.Function`
-  (iter()/reversed(), Node.append/prepend for moves) and, Python side only,
-  `traversal.RecursiveGraphIterator` over nested graphs;
-* the Lean model `IrVerif.LinkedSet` (driver command `lset.run`): pointer-level boxes + cursors,
+  (iter()/reversed(), Node.append/prepend for moves) and `traversal.RecursiveGraphIterator` over nested
+  graphs (forward / reverse, with and without a `recursive` predicate, enter/exit callbacks recorded);
+* the Lean model `IrVerif.LinkedSet` (driver commands `lset.run`, and `lset.rec` for the recursive iterator
+  as a stack of cursors with its pre-order specification `specTop`): pointer-level boxes + cursors,
   and in the same run the abstract `Spec` machine with the refinement statement evaluated
   (`abs`) and the executable invariant (`inv`);
 * the property oracle: an independent Python reference of the list-with-gaps spec (`Ref`) that
@@ -46,12 +47,19 @@ THEOREMS = [NS + t for t in (
     "C11_spec_rest_remove",
     "C11_spec_rest_insert",
     "C11_spec_resume",
+    "C11_rec_start",
+    "C11_rec_only_members",
+    "C11_rec_terminates",
+    "C11_rec_preorder",
+    "C11_rec_refine_step",
 )]
 ASSUMPTIONS = [
     "CPython generators are modelled as explicit cursors (suspended at the yield; the loop reads box.next / box.prev "
     "when resumed); id() of live objects is injective; dict is modelled as an association list",
     "single-threaded use; only the public editing calls of DoublyLinkedSet / Graph / Function (no raw box access)",
-    "RecursiveGraphIterator is not modelled in Lean: it is compared with the Python reference only (differential)",
+    "RecursiveGraphIterator: nested generators are modelled as an explicit stack of frames; node attributes (the "
+    "nesting) are not edited during a history (editing a dict while its view is iterated raises in CPython); "
+    "termination and pre-order assume a well-founded nesting (rank function), which the harness' nesting trees have",
 ]
 
 STOP = "stop"
@@ -777,75 +785,139 @@ def enumerate_small(kind, n0, universe, dirs, pre, depth, part, sink):
 # ----------------------------------------------------------------------------- recursive iteration
 
 
-class RecRef:
-    """Reference for RecursiveGraphIterator: a stack of list-with-gaps cursors, subgraphs entered lazily."""
+def _lean(reqs):
+    """lean_batch with patience: the driver binary may be being relinked by a concurrent build."""
+    import time
 
-    def __init__(self, refs, subs, root, reverse):
-        self.refs, self.subs, self.reverse = refs, subs, reverse
+    from harness.common import Infra, lean_batch
+
+    for attempt in range(8):
+        try:
+            return lean_batch(reqs)
+        except (Infra, OSError):
+            if attempt == 7:
+                raise
+            time.sleep(10)
+
+
+PER = 5  # nodes per graph in the recursive histories; node (g, i) has the global id g * 10 + i
+
+
+def nid(g, i):
+    return g * 10 + i
+
+
+class RecRef:
+    """Independent reference for RecursiveGraphIterator: a stack of list-with-gaps cursors; subgraphs are entered
+    lazily; emits the callback events (enter/exit/predicate) in call order."""
+
+    def __init__(self, refs, subs, root, reverse, pred_false):
+        self.refs, self.subs, self.reverse, self.pred_false = refs, subs, reverse, pred_false
         self.stack = None
         self.root = root
         self.done = False
 
     def _push(self, g):
-        self.stack.append([g, self.refs[g].new_cursor("r" if self.reverse else "f"), []])
+        # [graph, cursor, pending subgraphs, started, node whose attributes are still to be read]
+        self.stack.append([g, self.refs[g].new_cursor("r" if self.reverse else "f"), [], False, None])
 
     def next(self):
+        """-> (events and the yield of this call, result)"""
+        out = []
         if self.done:
-            return STOP
+            return out, STOP
         if self.stack is None:
             self.stack = []
             self._push(self.root)
         while self.stack:
             fr = self.stack[-1]
-            if fr[2]:
-                self._push(fr[2].pop(0))
+            if fr[4] is not None:
+                v, fr[4] = fr[4], None
+                if self.pred_false is not None:
+                    out.append(["p", nid(fr[0], v)])
+                    if v in self.pred_false.get(fr[0], ()):
+                        continue
+                fr[2] = list(self.subs.get((fr[0], v), []))
                 continue
+            if fr[2]:
+                h = fr[2].pop(0)
+                out.append(["en", h])
+                self._push(h)
+                continue
+            if not fr[3]:
+                fr[3] = True
+                out.append(["en", fr[0]])
             v = self.refs[fr[0]].next(fr[1])
             if v == STOP:
                 self.stack.pop()
+                out.append(["ex", fr[0]])
+                if self.stack:
+                    out.append(["ex", fr[0]])
                 continue
-            fr[2] = list(self.subs.get((fr[0], v), []))
-            return (fr[0], v)
+            fr[4] = v
+            out.append(["y", fr[0], nid(fr[0], v)])
+            return out, (fr[0], v)
         self.done = True
-        return STOP
+        return out, STOP
 
 
 def recursive_history(rng, part, nops, tag=None):
-    """Nested graphs (GRAPH and GRAPHS attributes, depth <= 2); edits of the node sequences of any of the
-    graphs interleaved with next() on RecursiveGraphIterator(forward / reverse). Python side only."""
+    """Nested graphs (GRAPH and GRAPHS attributes, depth <= 3); edits of the node sequences of any of the graphs
+    interleaved with next() on RecursiveGraphIterator (forward / reverse, with and without a `recursive`
+    predicate, enter/exit callbacks recorded).  Returns the Lean request and what the real iterators did."""
     import onnx_ir as ir
     from onnx_ir import traversal
 
-    ngraphs = rng.randrange(2, 5)
-    per = 5
+    ngraphs = rng.randrange(2, 6)
     nodes, graphs, refs = {}, [], []
     for g in range(ngraphs):
         graphs.append(ir.Graph(inputs=[], outputs=[], nodes=[], name=f"g{g}"))
         refs.append(Ref())
+    gid = {id(g): i for i, g in enumerate(graphs)}
     # nesting tree: graph j>0 hangs under a node of an earlier graph
-    subs = {}
     attach = {}
     for g in range(1, ngraphs):
         parent = rng.randrange(g)
-        attach.setdefault((parent, rng.randrange(per)), []).append(g)
+        attach.setdefault((parent, rng.randrange(PER)), []).append(g)
+    attr_spec = {}  # (g, i) -> [("g", h) | ("gs", [h..])] in attribute (dict) order
+    for key, kids in attach.items():
+        if len(kids) == 1:
+            attr_spec[key] = [("g", kids[0])] if rng.random() < 0.6 else [("gs", kids)]
+        elif rng.random() < 0.5:
+            attr_spec[key] = [("gs", kids)]
+        else:
+            attr_spec[key] = [("g", kids[0]), ("gs", kids[1:])] if rng.random() < 0.5 else [("gs", kids[:-1]), ("g", kids[-1])]
     for g in range(ngraphs):
-        for i in range(per):
-            attrs = []
-            kids = attach.get((g, i), [])
-            if len(kids) == 1 and rng.random() < 0.6:
-                attrs.append(ir.AttrGraph("body", graphs[kids[0]]))
-            elif kids:
-                attrs.append(ir.AttrGraphs("branches", [graphs[k] for k in kids]))
+        for i in range(PER):
+            attrs = [ir.AttrFloat32("alpha", 1.0)] if rng.random() < 0.3 else []
+            for j, (kind, val) in enumerate(attr_spec.get((g, i), [])):
+                if kind == "g":
+                    attrs.append(ir.AttrGraph(f"a{j}", graphs[val]))
+                else:
+                    attrs.append(ir.AttrGraphs(f"a{j}", [graphs[k] for k in val]))
             nodes[(g, i)] = ir.Node("", "Op", inputs=[], attributes=attrs, num_outputs=1, name=f"g{g}n{i}")
     ident = {id(n): key for key, n in nodes.items()}
+    subs_f = {k: [h for kind, val in sp for h in ([val] if kind == "g" else val)] for k, sp in attr_spec.items()}
+    subs_r = {k: [h for kind, val in sp for h in ([val] if kind == "g" else val[::-1])] for k, sp in attr_spec.items()}
+    pred_false = None
+    if rng.random() < 0.4:
+        pred_false = {g: {i for i in range(PER) if rng.random() < 0.4} for g in range(ngraphs)}
     log = []
+    inits = []
     for g in range(ngraphs):
         init = list(range(rng.randrange(0, 4)))
         graphs[g].extend([nodes[(g, i)] for i in init])
         refs[g].extend(init)
+        inits.append([nid(g, i) for i in init])
         log.append(("init", g, init))
-    subs_f = {k: v for k, v in attach.items()}
-    subs_r = {k: v[::-1] for k, v in attach.items()}
+    req = {
+        "m": "lset.rec",
+        "sets": inits,
+        "attrs": [[nid(*k), [({"g": v} if kind == "g" else {"gs": v}) for kind, v in sp]] for k, sp in attr_spec.items()],
+        "recf": None if pred_false is None else sorted(nid(g, i) for g, s_ in pred_false.items() for i in s_),
+        "ops": [],
+    }
+    real = []  # per op what the real objects did (same shape as the model's answers)
     its = []
     failed = []
 
@@ -859,53 +931,88 @@ def recursive_history(rng, part, nops, tag=None):
     def lists():
         return [[ident[id(n)][1] for n in g] for g in graphs]
 
+    def make_iter(root, rev):
+        ev = []
+        kw = {}
+        if pred_false is not None:
+            def pred(n, ev=ev):
+                g, i = ident[id(n)]
+                ev.append(["p", nid(g, i)])
+                return i not in pred_false[g]
+            kw["recursive"] = pred
+        it = traversal.RecursiveGraphIterator(
+            graphs[root], reverse=rev,
+            enter_graph=lambda g, ev=ev: ev.append(["en", gid[id(g)]]),
+            exit_graph=lambda g, ev=ev: ev.append(["ex", gid[id(g)]]), **kw)
+        return it, ev
+
+    def real_next(it, ev):
+        """-> (out, result) of one next() on the real iterator"""
+        del ev[:]
+        try:
+            n = guarded_next(it)
+            g, i = ident[id(n)]
+            if n.graph is not graphs[g] or n not in graphs[g]:
+                fail("yield-nonmember", f"recursive iterator yielded {(g, i)} which is not in its graph")
+            return list(ev) + [["y", g, nid(g, i)]], (g, i)
+        except StopIteration:
+            return list(ev), STOP
+        except Exception as e:  # noqa: BLE001
+            fail("next-raised", f"{type(e).__name__}: {e}")
+            return list(ev), RAISED
+
+    def res_json(r):
+        return r if r in (STOP, RAISED) else nid(*r)
+
     for _ in range(nops):
         r = rng.random()
         if not its or (len(its) < 3 and r < 0.08):
             rev = rng.random() < 0.4
-            it = traversal.RecursiveGraphIterator(graphs[0], reverse=rev)
+            it, ev = make_iter(0, rev)
             if rng.random() < 0.3:
                 it = iter(it)
-            its.append((it, RecRef(refs, subs_r if rev else subs_f, 0, rev), rev))
+            its.append((it, ev, RecRef(refs, subs_r if rev else subs_f, 0, rev, pred_false), rev))
             log.append(("iter", rev))
+            req["ops"].append({"o": "iter", "rev": rev})
+            real.append({"r": len(its) - 1})
         elif r < 0.5:
             k = rng.randrange(len(its))
-            it, rr, rev = its[k]
-            try:
-                n = guarded_next(it)
-                got = ident[id(n)]
-                if n.graph is not graphs[got[0]] or n not in graphs[got[0]]:
-                    fail("yield-nonmember", f"recursive iterator yielded {got} which is not in its graph")
-            except StopIteration:
-                got = STOP
-            except Exception as e:  # noqa: BLE001
-                got = RAISED
-                fail("next-raised", f"{type(e).__name__}: {e}")
-            want = rr.next()
+            it, ev, rr, rev = its[k]
+            out, got = real_next(it, ev)
+            wout, want = rr.next()
             log.append(("next", k, got))
+            req["ops"].append({"o": "next", "k": k})
+            real.append({"out": out, "r": res_json(got)})
             if got != want:
                 fail("yield!=spec", f"recursive iterator {k} (reverse={rev}) yielded {got}, reference {want}")
+            elif out != wout:
+                fail("events!=spec", f"recursive iterator {k} (reverse={rev}) produced {out}, reference {wout}")
         else:
             g = rng.randrange(ngraphs)
             L = refs[g].L
-            absent = [i for i in range(per) if i not in L]
+            absent = [i for i in range(PER) if i not in L]
             kind = rng.choice(["rm", "append", "ia", "ib"])
+            e = None
+            ok = True
             try:
                 if kind == "rm" and L:
                     x = rng.choice(L)
                     log.append((kind, g, x))
+                    e = {"o": "rm", "v": nid(g, x)}
                     graphs[g].remove(nodes[(g, x)])
                     refs[g].remove(x)
                 elif kind == "append":
-                    x = rng.randrange(per)
+                    x = rng.randrange(PER)
                     log.append((kind, g, x))
+                    e = {"o": "append", "v": nid(g, x)}
                     graphs[g].append(nodes[(g, x)])
                     refs[g].append(x)
                 elif kind in ("ia", "ib") and L:
                     a = rng.choice(L)
-                    xs = [rng.choice(absent) if absent and rng.random() < 0.6 else rng.randrange(per)
+                    xs = [rng.choice(absent) if absent and rng.random() < 0.6 else rng.randrange(PER)
                           for _ in range(rng.choice([1, 1, 2]))]
                     log.append((kind, g, a, xs))
+                    e = {"o": kind, "a": nid(g, a), "vs": [nid(g, x) for x in xs]}
                     ns = [nodes[(g, x)] for x in xs]
                     if kind == "ia":
                         graphs[g].insert_after(nodes[(g, a)], ns)
@@ -913,31 +1020,89 @@ def recursive_history(rng, part, nops, tag=None):
                     else:
                         graphs[g].insert_before(nodes[(g, a)], ns)
                         refs[g].insert_before(a, xs)
-            except Exception as e:  # noqa: BLE001
-                fail("edit-raised", f"{kind} raised {type(e).__name__}: {e}")
+            except Exception as ex:  # noqa: BLE001
+                ok = False
+                fail("edit-raised", f"{kind} raised {type(ex).__name__}: {ex}")
+            if e is not None:
+                req["ops"].append({"o": "edit", "g": g, "e": e})
+                real.append({"r": ok, "L": [[nid(g2, i) for i in l] for g2, l in enumerate(lists())]})
             if lists() != [r_.L for r_ in refs]:
                 fail("sequence!=spec", f"graphs {lists()} reference {[r_.L for r_ in refs]}")
+    # edits have stopped: every iterator runs to StopIteration
     total = sum(len(r_.L) for r_ in refs)
-    for k, (it, rr, rev) in enumerate(its):
-        for _ in range(3 * total + 3):  # a moved node's subgraph may legitimately be entered again
-            try:
-                got = ident[id(guarded_next(it))]
-            except StopIteration:
-                got = STOP
-            except Exception as e:  # noqa: BLE001
-                got = RAISED
-                fail("next-raised", f"{type(e).__name__}: {e}")
-            want = rr.next()
-            if got != want:
-                fail("yield!=spec", f"recursive iterator {k} yielded {got} while draining, reference {want}")
+    bound = (ngraphs + 1) * (total + 2) + 3  # a moved node's subgraph may legitimately be entered again
+    for k, (it, ev, rr, rev) in enumerate(its):
+        stream = []
+        res = None
+        for _ in range(bound):
+            out, got = real_next(it, ev)
+            wout, want = rr.next()
+            stream += out
+            if got != want or out != wout:
+                fail("yield!=spec", f"recursive iterator {k} produced {out}/{got} while draining, reference {wout}/{want}")
+                res = "diverged"
                 break
             if got in (STOP, RAISED):
+                res = got
                 break
         else:
-            fail("no-termination", f"recursive iterator {k} still yields after {3 * total + 3} steps")
-    part.case(["rec", log], nontrivial=len(its) > 0, kind="recursive", ngraphs=ngraphs,
-              nested_depth=1 + max([0] + [1 for (p, _i) in attach if p > 0]))
-    return not failed
+            res = "no-termination"
+            fail("no-termination", f"recursive iterator {k} still yields after {bound} steps without edits")
+        req["ops"].append({"o": "drain", "k": k})
+        real.append({"out": stream, "r": res})
+    # no edits at all: the full run is the pre-order flattening (both directions)
+    for rev in (False, True):
+        it, ev = make_iter(0, rev)
+        stream = []
+        res = None
+        for _ in range(bound):
+            out, got = real_next(it, ev)
+            stream += out
+            if got in (STOP, RAISED):
+                res = got
+                break
+        req["ops"].append({"o": "spec", "rev": rev, "g": 0})
+        real.append({"out": stream, "r": res, "spec": stream})
+        # the clause itself, independently: a plain recursive walk over the current sequences
+        def walk(g, top=False):
+            seq = refs[g].L[::-1] if rev else refs[g].L
+            o = [["en", g]]
+            for v in seq:
+                o.append(["y", g, nid(g, v)])
+                if pred_false is not None:
+                    o.append(["p", nid(g, v)])
+                    if v in pred_false[g]:
+                        continue
+                for h in (subs_r if rev else subs_f).get((g, v), []):
+                    o += [["en", h]] + walk(h) + [["ex", h]]
+            return o + [["ex", g]]
+        if stream != walk(0):
+            fail("preorder", f"fresh recursive iterator (reverse={rev}) produced {stream}, pre-order walk gives {walk(0)}")
+    depth = 1
+    frontier = [0]
+    while True:
+        frontier = [h for (p, _i), kids in attach.items() if p in frontier for h in kids]
+        if not frontier:
+            break
+        depth += 1
+    part.case(["rec", log], nontrivial=len(its) > 0, kind="recursive", ngraphs=ngraphs, nested_depth=depth,
+              predicate=pred_false is not None)
+    return {"req": req, "real": real, "case": {"log": log, "rec_seed": tag, "nops": nops}}
+
+
+def compare_rec(ctx, packs):
+    """Recursive-iterator model (`lset.rec`) vs the real iterators."""
+    outs = _lean([p["req"] for p in packs])
+    for p, out in zip(packs, outs):
+        if "err" in out:
+            ctx.disagree("recursive: model driver error", p["case"], out, None)
+            continue
+        for i, (m, r) in enumerate(zip(out["steps"], p["real"])):
+            bad = [k for k in r if m.get(k) != r[k]]
+            if bad or m.get("inv") is False:
+                ctx.disagree(f"recursive model != implementation on {bad} at step {i} ({p['req']['ops'][i]})", p["case"],
+                             {k: m.get(k) for k in bad}, {k: r[k] for k in bad})
+                break
 
 
 # ----------------------------------------------------------------------------- workers
@@ -978,10 +1143,12 @@ def _work_random(job):
 def _work_recursive(job):
     seed, count = job
     part = Part()
+    packs = []
     for i in range(count):
         tag = f"{seed}:{i}"
         rng = random.Random(tag)  # one PRNG per history so that a failing one can be replayed alone
-        recursive_history(rng, part, rng.choice([10, 20, 40]), tag)
+        packs.append(recursive_history(rng, part, rng.choice([10, 20, 40]), tag))
+    compare_rec(part, packs)
     return part, []
 
 
@@ -1007,18 +1174,7 @@ def _work_small(job):
 
 def compare(ctx, packs: list[dict]) -> None:
     """Model vs implementation on every step of every history (ctx: a Ctx or a worker's Part)."""
-    import time
-
-    from harness.common import Infra, lean_batch
-
-    for attempt in range(8):
-        try:
-            outs = lean_batch([p["req"] for p in packs])
-            break
-        except (Infra, OSError):  # the driver binary is being relinked by a concurrent build: wait and retry
-            if attempt == 7:
-                raise
-            time.sleep(10)
+    outs = _lean([p["req"] for p in packs])
     for p, out in zip(packs, outs):
         if "err" in out:
             ctx.disagree("model driver error", p["case"], out, None)
@@ -1097,8 +1253,9 @@ def replay(ctx: Ctx, obj: dict) -> None:
         part = Part()
         rng = random.Random(case["rec_seed"])
         rng.choice([10, 20, 40])  # same draw as the worker made before the history
-        recursive_history(rng, part, case["nops"], case["rec_seed"])
+        pack = recursive_history(rng, part, case["nops"], case["rec_seed"])
         ctx.merge(part)
+        compare_rec(ctx, [pack])
         return
     if "ops" not in case:
         return
